@@ -542,7 +542,7 @@ pub fn exec_raw(
             }
         }
         Op::Slice(v) => match g.slice(*v) {
-            Ok(s) => Ret::Res(Ok(digest(s.as_ref(), O_KEYS | O_EDGES, labels))),
+            Ok(s) => Ret::Res(Ok(slice_signature(s, labels))),
             Err(e) => Ret::Res(Err(e)),
         },
         Op::Merge { h, left, right } => {
@@ -567,4 +567,30 @@ pub fn exec_raw(
         }
         Op::Export => Ret::Texts(texts(g.as_ref())),
     })
+}
+
+/// Everything observable about a slice, including how it behaves when it is used as a graph:
+/// all printers, then a datum is put on every vertex and read back in ascending id order, with
+/// the present set after every read (this makes the group partition of the slice observable).
+pub fn slice_signature(mut sl: Box<dyn Graph>, labels: &[Label]) -> String {
+    let mut out = digest(sl.as_ref(), O_KEYS | O_EDGES | O_TEXT | O_INSPECT, labels);
+    let keys = sl.keys();
+    let r = guarded(|| {
+        let mut t = String::new();
+        for v in &keys {
+            sl.put(*v, &sodg::Hex::from_vec(vec![*v as u8, 1, 2, 3, 4, 5, 6, 7, 8]));
+        }
+        for v in &keys {
+            if sl.keys().contains(v) {
+                let d = sl.data(*v).map(|h| h.len());
+                t.push_str(&format!("data({v})={d:?} keys={:?}\n", sl.keys()));
+            }
+        }
+        t
+    });
+    match r {
+        Ok(t) => out.push_str(&t),
+        Err(_) => out.push_str("PANIC while using the slice\n"),
+    }
+    out
 }
